@@ -80,7 +80,13 @@ impl<const N: usize> AntiAmplifier<N> {
         if self.state.load(Ordering::Acquire) == Self::NORMAL {
             #[cfg(genmeta_gm_quic_verif)]
             qbase::verif::sched_point("AntiAmplifier::on_sent:after-state-load");
-            self.credit.fetch_sub(amount, Ordering::AcqRel);
+            // never below zero: a burst may have overdrawn the credit, and a wrapped counter
+            // would read as an effectively unlimited allowance
+            _ = self
+                .credit
+                .fetch_update(Ordering::AcqRel, Ordering::Acquire, |credit| {
+                    Some(credit.saturating_sub(amount))
+                });
         }
     }
 
